@@ -14,7 +14,7 @@ from fractions import Fraction as F
 from .. import exactspec as X
 from ..build import build
 from ..compare import Raised, call, detail, disc, same, tname
-from ..exact import boundary_distance, hashed_quantities
+from ..exact import boundary_distance, float_near_boundary, hashed_quantities
 from ..libenv import lib
 
 NAME = "C19"
@@ -486,10 +486,38 @@ def _cross_objects(sa):
     return out
 
 
-def _cross_checks(A, B, sa):
-    """J2 substitution: a third object meets A and its eps/1000 companion alike"""
+def _result_coords(r):
+    n = tname(r)
+    try:
+        if n == "Point":
+            return list(r)
+        if n == "Segment":
+            return list(r.start_point) + list(r.end_point)
+        if n == "HalfLine":
+            return list(r.point)
+        if n == "ConvexPolygon":
+            return [c for p in r.points for c in p]
+        if n == "ConvexPolyhedron":
+            return [c for p in r.point_set for c in p]
+    except Exception:
+        pass
+    return []
+
+
+def _cross_checks(A, B, sa, M):
+    """J2 substitution: a third object meets A and its eps/1000 companion alike.
+
+    "Alike" = the same kind of result, and the same point set within 10 eps. The
+    library's own == is NOT used here: for polygons and polyhedra it is hash
+    equality, and the vertices of these results are *computed* intersection points
+    whose decimals the property's catalogue does not protect from rounding
+    boundaries (its quantifier only covers the catalogue objects' own hashed
+    quantities). When a result coordinate of either side lies within 5 % of a
+    rounding step of a boundary at the current digits, vertex merging inside the
+    handler is itself boundary-sensitive and only the kind is compared."""
     G = lib()
     out = []
+    tol = 10 * M.eps_float
     for name, cs in _cross_objects(sa):
         C1, C2 = call(build, cs), call(build, cs)
         if isinstance(C1, Raised):
@@ -499,9 +527,15 @@ def _cross_checks(A, B, sa):
             # the catalogue object itself has no clean answer here: nothing to compare
             out.append((name, True, True))
             continue
-        e = call(lambda a, b: a == b, r0, r1) if tname(r0) == tname(r1) else None
-        ok = tname(r0) == tname(r1) and e is True
-        out.append((name, True if ok else "A:%s,B:%s,==:%s" % (disc(r0), disc(r1), disc(e)), True))
+        if tname(r0) != tname(r1):
+            out.append((name, "A:%s,B:%s" % (disc(r0), disc(r1)), True))
+            continue
+        fragile = any(float_near_boundary(x, M.sig, 0.05) for x in _result_coords(r0) + _result_coords(r1))
+        if fragile:
+            out.append((name + "~", True, True))
+            continue
+        ok = same(r0, r1, tau=tol)
+        out.append((name, True if ok else "A:%s,B:%s,close:F" % (disc(r0), disc(r1)), True))
     return out
 
 
@@ -665,7 +699,10 @@ def execute(history, opts=None):
                 # survivors do now
                 tw = {}
                 for i in ids:
-                    if i in touched:
+                    # a moved survivor carries (p + delta) + v rounded in floating point, its
+                    # twin float(p + delta + v): one ulp apart, which matters for battery
+                    # entries that sit at the tolerance threshold - only never-moved objects
+                    if i in touched or world[i].get("moved", 0):
                         continue
                     o = call(build, world[i]["spec"])
                     if not isinstance(o, Raised):
@@ -725,7 +762,7 @@ def _check_near(ctx, step, M, a, b):
         ctx.count("near_inadmissible:" + why)
         ctx.event(step, "CHECK_NEAR", "inadmissible")
         return
-    res = _pair_checks(A, B, a["spec"], b["spec"]) + _cross_checks(A, B, a["spec"])
+    res = _pair_checks(A, B, a["spec"], b["spec"]) + _cross_checks(A, B, a["spec"], M)
     ctx.count("J2_pairs")
     ctx.count("J2_pairs:%s:j=%d" % (t, j))
     if a["built"] != M.key() or b["built"] != M.key():
@@ -734,6 +771,8 @@ def _check_near(ctx, step, M, a, b):
     outs = []
     for name, r, want in res:
         ctx.count("J2_assertions")
+        if name.endswith("~"):
+            ctx.count("cross_results_near_rounding_boundary")
         ctx.count("cell:%s:%s:j=%d" % (t, name.split(":")[0], j))
         outs.append("T" if r is True else "#")
         if r is True:
